@@ -21,12 +21,13 @@ import c04
 import gen_gene
 import instances
 import lib
+import views
 import lp
 import sim
 import yaml
 
 PID = "C13"
-PROPS = ["Aldy.Props.C13"]
+PROPS = ["Aldy.Props.C13", "Aldy.Props.C13Spec"]
 TRUSTED_EXTRA = ["pysam and the read simulator (pipeline runs)", "name canonicaliser of this check (maps variable names to RefSeq identities)"]
 ASSUMPTIONS = ["every planted variant is mapped in both builds", "reference depth uniform around variant sites (evidence transport)"]
 
@@ -165,6 +166,13 @@ def run_stage(gene, table, structure, pdesc):
     with lp.Capture() as cap:
         majors = major.estimate_major(gene, cov, cn, "cbc")
     msnap = cap.snaps[0][1] if cap.snaps else None
+    # the input of the major stage as the Lean model reads it (for the spec-level correspondence of the two builds)
+    try:
+        cand, fcov = major._filter_alleles(gene, cov, cn)
+        minst = {"gene": views.gene_view(gene, sorted(set(table) | {p for p, _ in gene.mutations})), "cov": views.cov_view(fcov), "cn": views.cn_view(cn),
+                 "alleles": list(cand.keys()), "major_novel": lib.frac(float(prof.major_novel)), "gap": lib.frac(float(prof.gap))}
+    except Exception:
+        minst = None
     calls = []
     orig = minor.solve_minor_model
 
@@ -179,7 +187,7 @@ def run_stage(gene, table, structure, pdesc):
         minors = minor.estimate_minor(gene, cov, majors, "cbc") if majors else []
     finally:
         minor.solve_minor_model = orig
-    return {"majors": majors, "minors": minors, "msnap": msnap, "calls": calls}
+    return {"majors": majors, "minors": minors, "msnap": msnap, "calls": calls, "minst": minst}
 
 
 def result_view(gene, res):
@@ -368,6 +376,7 @@ def tie(ctx):
     distinct = set()
     samples = []
     n = 240 if quick else 2500
+    corr_reqs, corr_metas = [], []
     # ---- what the stages ask the database per RefSeq base is the same in both builds ------------------------------
     for gd in pool:
         if gd["kind"] == "shipped":
@@ -398,6 +407,15 @@ def tie(ctx):
             violations.append({"why": f"stage raised {type(e).__name__}: {e}", "input": inp, "signature": "c13:crash"})
             continue
         va, vb = result_view(genes[0], ra), result_view(genes[1], rb)
+        if ra.get("minst") and rb.get("minst"):
+            # variants and sites of the two builds paired by RefSeq identity
+            idb = {(v[3], v[4]): (q, o) for (q, o), v in genes[1].mutations.items()}
+            pi = [[[q, o], list(idb[(v[3], v[4])])] for (q, o), v in genes[0].mutations.items() if (v[3], v[4]) in idb]
+            rho = {}
+            for (a_, b_) in pi:
+                rho.setdefault(a_[0], b_[0])
+            corr_reqs.append({"op": "major_corr", "I": ra["minst"], "J": rb["minst"], "pi": pi, "rho": [[a_, b_] for a_, b_ in rho.items()]})
+            corr_metas.append((inp, va[0], vb[0]))
         stats["stage_pairs"] += 1
         stats["opposite_strand"] += genes[0].strand != genes[1].strand
         import c09
@@ -452,6 +470,19 @@ def tie(ctx):
         distinct.add(lib.canon_hash([gd, structure, planted, i]))
         if len(samples) < 3 and va[0]:
             samples.append({"db": gd.get("name", gd["kind"]), "strands": [g.strand for g in genes], "structure": structure, "planted": planted, "major": va[0][:2]})
+    # ---- spec level (Props/C13Spec): where the two inputs of the major stage correspond (`MajorCorr`, decided by Lean), every
+    # multiset has the same admissibility and documented score in both builds, so the reported solutions must be the same
+    fam["major_spec_correspondence"] = {"cases": 0, "disagreements": []}
+    for (inp_, mja, mjb), o in zip(corr_metas, lib.driver_batch(corr_reqs)):
+        fam["major_spec_correspondence"]["cases"] += 1
+        if o["corr"]:
+            stats["major_corr_holds"] += 1
+            if mja != mjb:
+                fam["major_spec_correspondence"]["disagreements"].append(
+                    {"why": f"the major-stage inputs of the two builds correspond (spec_major_build_independent applies) but the reported solutions differ: {mja[:2]} vs {mjb[:2]}", "input": inp_})
+        else:
+            for c_ in o["failing"]:
+                stats["major_corr_fails_" + c_] += 1
     # ---- full pipeline on alignments simulated against each build ----------------------------------------
     d = sim.scratch_dir()
     try:
